@@ -513,6 +513,10 @@ def run(ctx: Ctx) -> None:
         from .common import share_rules
         share_rules(ctx, "C09", "C03.R17", ["C09.R2"], "a path produced during the analysis is registered with the return signature of its producer - the key the store records: a reader "
                     "gets the same signature whether producer and reader are evaluated together or one after the other (prior sequence of evaluations)")
+    rep.rule("C03.R19", "no name taken from the BODY of an analysed function is ever imported as a module: what `importlib.import_module(<name>)` finds depends on sys.path - the working "
+                        "directory first - so a directory that happens to be called like a lambda parameter or a builtin would enter the signature")
+    n19 = no_import_by_body_name(ctx, "C03.R19")
+    rep.floor("C03.R19", n19, 1)
     from .c05 import dict_order_insensitive
     rep.rule("C03.R16", "the signature of a dictionary argument is the same in every process and for every hash seed: equal plain dictionaries are hashed in a canonical order of their "
                         "items, not in insertion order (which, for a dictionary built from a set, follows the hash seed)")
@@ -709,6 +713,42 @@ def _sanitised(ctx: Ctx, f: Func, node: ast.AST) -> bool:
             return True
         break
     return False
+
+
+def no_import_by_body_name(ctx: Ctx, rule: str) -> int:
+    """Every `importlib.import_module(X)` of the resolver module: X derives from a canonical path (the name of a module object the resolver already holds) - not from a
+    local dependency path, which is spelled from the names met in a function body."""
+    rep = ctx.report
+    prog = ctx.prog
+    n = 0
+    for f in prog.funcs.values():
+        if f.module.name != "dds._retrieve_objects":
+            continue
+        a = f.node.args
+        ann = {x.arg: (unparse(x.annotation, 100) if x.annotation is not None else "") for x in a.posonlyargs + a.args + a.kwonlyargs}
+        body_params = {p_ for p_, t in ann.items() if "LocalDepPath" in t}
+        fl = flow_of(prog, f)
+        for c in f.own_nodes():
+            if not (isinstance(c, ast.Call) and (prog.dotted(f, c.func) or unparse(c.func)).endswith("import_module") and c.args):
+                continue
+            n += 1
+            x = c.args[0]
+            srcs = [x]
+            if isinstance(x, ast.Name):
+                try:
+                    srcs = [d.value for d in fl.root_defs(x) if d.value is not None] or [x]
+                except Exception:
+                    srcs = [x]
+            from_body = sorted({y.id for s_ in srcs for y in ast.walk(s_) if isinstance(y, ast.Name) and y.id in body_params})
+            desc = f"{f.name}: `{unparse(c, 50)}` imports a module the resolver knows by its canonical name"
+            if not from_body:
+                rep.ok(rule, f.qname, desc, f.loc(c))
+            else:
+                rep.bad(rule, f.qname, desc, f.loc(c), [f"{f.loc(c)}: the name comes from `{from_body[0]}` (a {ann[from_body[0]]}: the names written in the body of the analysed function)",
+                        "`sum(map(lambda row: row + 1, xs))` analysed in a working directory that holds a directory `row/` (a namespace package for python): <row> becomes an external "
+                        "dependency of the function, its signature differs from the one computed anywhere else (demo: /verif/findings/K9_cwd_directory_enters_signature.py)"],
+                        "import-by-body-name", what="a name of a function body is looked up on sys.path: the working directory enters the signature")
+    return n
 
 
 def _insensitive_body(ctx: Ctx, f: Func, loop: ast.For) -> bool:
